@@ -5,13 +5,13 @@ From PdfV Require Import Gen.LexClasses Model.Lexer Proofs.LexerProofs.
 Import ListNotations.
 Open Scope Z_scope.
 
-(* ---------- the reader's states inside a literal string (nesting depth 1) ------------------------------------ *)
+(* ---------- the reader's states inside a literal string (n = nesting depth of parentheses) ------------------------------------ *)
 Definition fr (st : lst) : Z * list (Z * token) := (tpos st, toks st).
-Definition SNorm (f : Z * list (Z * token)) (st : lst) (acc : list Z) : Prop := fr st = f /\ lmode st = MString /\ cur st = acc /\ paren st = 1.
-Definition SEsc (f : Z * list (Z * token)) (st : lst) (acc : list Z) : Prop := fr st = f /\ lmode st = MString1 /\ cur st = acc /\ paren st = 1 /\ oct st = [].
-Definition SOct (f : Z * list (Z * token)) (st : lst) (acc ds : list Z) : Prop :=
-  fr st = f /\ lmode st = MString1 /\ cur st = acc /\ paren st = 1 /\ oct st = ds /\ ds <> [] /\ (length ds <= 3)%nat.
-Definition SCR (f : Z * list (Z * token)) (st : lst) (acc : list Z) : Prop := fr st = f /\ lmode st = MStringCR /\ cur st = acc /\ paren st = 1.
+Definition SNorm (f : Z * list (Z * token)) (n : Z) (st : lst) (acc : list Z) : Prop := fr st = f /\ lmode st = MString /\ cur st = acc /\ paren st = n.
+Definition SEsc (f : Z * list (Z * token)) (n : Z) (st : lst) (acc : list Z) : Prop := fr st = f /\ lmode st = MString1 /\ cur st = acc /\ paren st = n /\ oct st = [].
+Definition SOct (f : Z * list (Z * token)) (n : Z) (st : lst) (acc ds : list Z) : Prop :=
+  fr st = f /\ lmode st = MString1 /\ cur st = acc /\ paren st = n /\ oct st = ds /\ ds <> [] /\ (length ds <= 3)%nat.
+Definition SCR (f : Z * list (Z * token)) (n : Z) (st : lst) (acc : list Z) : Prop := fr st = f /\ lmode st = MStringCR /\ cur st = acc /\ paren st = n.
 
 Definition octv (ds : list Z) : Z := Z.land (octnum ds) 255.
 Definition plain (c : Z) : Prop := c <> 40 /\ c <> 41 /\ c <> 92.
@@ -30,19 +30,19 @@ Ltac crunch Hm :=
   unfold step_string1, step_stringcr; unfold step_string; unfold string_special, string1_escape, end_oct, escape_consumes.
 
 (* --- from the normal state *)
-Lemma n_plain f st acc c : SNorm f st acc -> plain c -> SNorm f (step st c) (acc ++ [c]).
+Lemma n_plain f n st acc c : SNorm f n st acc -> plain c -> SNorm f n (step st c) (acc ++ [c]).
 Proof.
   intros (Hf & Hm & Hc & Hp) Hpl. crunch Hm. rewrite (plain_not_end c Hpl).
   unfold SNorm, fr in *. cbn [adv add_cur set_cur lmode cur paren tpos toks]. rewrite Hc. auto.
 Qed.
-Lemma n_backslash f st acc : SNorm f st acc -> SEsc f (step st 92) acc.
+Lemma n_backslash f n st acc : SNorm f n st acc -> SEsc f n (step st 92) acc.
 Proof.
   intros (Hf & Hm & Hc & Hp). crunch Hm. cbn.
   unfold SEsc, fr in *. cbn [adv set_mode set_oct lmode cur paren oct tpos toks]. auto.
 Qed.
 
 (* --- right after the backslash *)
-Lemma e_table f st acc c v : SEsc f st acc -> lookup c ESC_STRING = Some v -> SNorm f (step st c) (acc ++ [v]).
+Lemma e_table f n st acc c v : SEsc f n st acc -> lookup c ESC_STRING = Some v -> SNorm f n (step st c) (acc ++ [v]).
 Proof.
   intros (Hf & Hm & Hc & Hp & Ho) Hl. crunch Hm. rewrite Ho.
   assert (Hoct : re_OCT_STRING c = false).
@@ -51,24 +51,24 @@ Proof.
   rewrite Hoct. cbn [andb nonempty]. rewrite Hl.
   unfold SNorm, fr in *. cbn [adv set_mode add_cur set_cur lmode cur paren tpos toks]. rewrite Hc. auto.
 Qed.
-Lemma e_octal f st acc c : SEsc f st acc -> re_OCT_STRING c = true -> SOct f (step st c) acc [c].
+Lemma e_octal f n st acc c : SEsc f n st acc -> re_OCT_STRING c = true -> SOct f n (step st c) acc [c].
 Proof.
   intros (Hf & Hm & Hc & Hp & Ho) Hoct. crunch Hm. rewrite Ho, Hoct. cbn [len length Z.of_nat Z.ltb Z.compare andb app].
   unfold SOct, fr in *. cbn [adv set_oct lmode cur paren oct length tpos toks]. repeat split; auto; try discriminate; lia.
 Qed.
-Lemma e_lf f st acc : SEsc f st acc -> SNorm f (step st 10) acc.
+Lemma e_lf f n st acc : SEsc f n st acc -> SNorm f n (step st 10) acc.
 Proof.
   intros (Hf & Hm & Hc & Hp & Ho). crunch Hm. rewrite Ho. cbn.
   unfold SNorm, fr in *. cbn [adv set_mode lmode cur paren tpos toks]. auto.
 Qed.
-Lemma e_cr f st acc : SEsc f st acc -> SCR f (step st 13) acc.
+Lemma e_cr f n st acc : SEsc f n st acc -> SCR f n (step st 13) acc.
 Proof.
   intros (Hf & Hm & Hc & Hp & Ho). crunch Hm. rewrite Ho. cbn.
   unfold SCR, fr in *. cbn [adv set_mode lmode cur paren tpos toks]. auto.
 Qed.
 (* a backslash before a byte that starts no escape is ignored *)
-Lemma e_other f st acc c : SEsc f st acc -> plain c -> re_OCT_STRING c = false -> lookup c ESC_STRING = None ->
-  c <> 13 -> c <> 10 -> SNorm f (step st c) (acc ++ [c]).
+Lemma e_other f n st acc c : SEsc f n st acc -> plain c -> re_OCT_STRING c = false -> lookup c ESC_STRING = None ->
+  c <> 13 -> c <> 10 -> SNorm f n (step st c) (acc ++ [c]).
 Proof.
   intros (Hf & Hm & Hc & Hp & Ho) Hpl Hoct Hl H13 H10. crunch Hm. rewrite Ho, Hoct, Hl. cbn [andb nonempty].
   assert (E : (c =? 13) || (c =? 10) = false) by lia. rewrite E.
@@ -77,7 +77,7 @@ Proof.
 Qed.
 
 (* --- inside an octal escape *)
-Lemma o_more f st acc ds c : SOct f st acc ds -> (length ds < 3)%nat -> re_OCT_STRING c = true -> SOct f (step st c) acc (ds ++ [c]).
+Lemma o_more f n st acc ds c : SOct f n st acc ds -> (length ds < 3)%nat -> re_OCT_STRING c = true -> SOct f n (step st c) acc (ds ++ [c]).
 Proof.
   intros (Hf & Hm & Hc & Hp & Ho & Hne & Hl) Hlt Hoct. crunch Hm. rewrite Ho, Hoct, (len_lt3 ds Hlt). cbn [andb].
   unfold SOct, fr in *. cbn [adv set_oct lmode cur paren oct tpos toks]. rewrite app_length. cbn [length].
@@ -85,15 +85,15 @@ Proof.
 Qed.
 Lemma o_done_test ds c : (3 <= length ds)%nat \/ re_OCT_STRING c = false -> re_OCT_STRING c && (len ds <? 3) = false.
 Proof. intros [H|H]; [rewrite (len_ge3 ds H); apply andb_false_r|rewrite H; reflexivity]. Qed.
-Lemma o_plain f st acc ds c : SOct f st acc ds -> (3 <= length ds)%nat \/ re_OCT_STRING c = false -> plain c ->
-  SNorm f (step st c) (acc ++ [octv ds] ++ [c]).
+Lemma o_plain f n st acc ds c : SOct f n st acc ds -> (3 <= length ds)%nat \/ re_OCT_STRING c = false -> plain c ->
+  SNorm f n (step st c) (acc ++ [octv ds] ++ [c]).
 Proof.
   intros (Hf & Hm & Hc & Hp & Ho & Hne & Hl) Hd Hpl. crunch Hm. rewrite Ho, (o_done_test ds c Hd), (nonempty_ne ds Hne).
   cbn [lmode set_mode add_cur set_cur]. rewrite (plain_not_end c Hpl).
   unfold SNorm, fr in *. cbn [adv add_cur set_cur set_mode lmode cur paren tpos toks]. rewrite Hc. unfold octv.
   rewrite <- app_assoc. auto.
 Qed.
-Lemma o_backslash f st acc ds : SOct f st acc ds -> SEsc f (step st 92) (acc ++ [octv ds]).
+Lemma o_backslash f n st acc ds : SOct f n st acc ds -> SEsc f n (step st 92) (acc ++ [octv ds]).
 Proof.
   intros (Hf & Hm & Hc & Hp & Ho & Hne & Hl). crunch Hm. rewrite Ho.
   assert (E : re_OCT_STRING 92 && (len ds <? 3) = false) by reflexivity. rewrite E, (nonempty_ne ds Hne).
@@ -102,39 +102,90 @@ Proof.
 Qed.
 
 (* --- after backslash CR *)
-Lemma c_lf f st acc : SCR f st acc -> SNorm f (step st 10) acc.
+Lemma c_lf f n st acc : SCR f n st acc -> SNorm f n (step st 10) acc.
 Proof.
   intros (Hf & Hm & Hc & Hp). crunch Hm. cbn.
   unfold SNorm, fr in *. cbn [adv set_mode lmode cur paren tpos toks]. auto.
 Qed.
-Lemma c_plain f st acc c : SCR f st acc -> c <> 10 -> plain c -> SNorm f (step st c) (acc ++ [c]).
+Lemma c_plain f n st acc c : SCR f n st acc -> c <> 10 -> plain c -> SNorm f n (step st c) (acc ++ [c]).
 Proof.
   intros (Hf & Hm & Hc & Hp) H10 Hpl. crunch Hm. assert (E : c =? 10 = false) by lia. rewrite E.
   cbn [lmode set_mode]. rewrite (plain_not_end c Hpl).
   unfold SNorm, fr in *. cbn [adv add_cur set_cur set_mode lmode cur paren tpos toks]. rewrite Hc. auto.
 Qed.
-Lemma c_backslash f st acc : SCR f st acc -> SEsc f (step st 92) acc.
+Lemma c_backslash f n st acc : SCR f n st acc -> SEsc f n (step st 92) acc.
 Proof.
   intros (Hf & Hm & Hc & Hp). crunch Hm. cbn.
   unfold SEsc, fr in *. cbn [adv set_mode set_oct lmode cur paren oct tpos toks]. auto.
 Qed.
 
+(* --- nested parentheses: kept as written, the depth counted *)
+Lemma end_string_40 : re_END_STRING 40 = true. Proof. reflexivity. Qed.
+Lemma end_string_41 : re_END_STRING 41 = true. Proof. reflexivity. Qed.
+Lemma n_open f n st acc : SNorm f n st acc -> SNorm f (n + 1) (step st 40) (acc ++ [40]).
+Proof.
+  intros (Hf & Hm & Hc & Hp). crunch Hm. rewrite end_string_40.
+  replace (40 =? 92) with false by reflexivity. replace (40 =? 40) with true by reflexivity.
+  unfold SNorm, fr in *. cbn [adv add_cur set_cur set_paren lmode cur paren tpos toks]. rewrite Hc, Hp. auto.
+Qed.
+Lemma n_close f n st acc : 2 <= n -> SNorm f n st acc -> SNorm f (n - 1) (step st 41) (acc ++ [41]).
+Proof.
+  intros Hn (Hf & Hm & Hc & Hp). crunch Hm. rewrite end_string_41.
+  replace (41 =? 92) with false by reflexivity. replace (41 =? 40) with false by reflexivity.
+  replace (41 =? 41) with true by reflexivity. assert (E : negb (paren st - 1 =? 0) = true) by lia. rewrite E. cbn [andb].
+  unfold SNorm, fr in *. cbn [adv add_cur set_cur set_paren lmode cur paren tpos toks]. rewrite Hc, Hp. auto.
+Qed.
+Lemma o_open f n st acc ds : SOct f n st acc ds -> SNorm f (n + 1) (step st 40) (acc ++ [octv ds] ++ [40]).
+Proof.
+  intros (Hf & Hm & Hc & Hp & Ho & Hne & Hl). crunch Hm. rewrite Ho.
+  assert (E : re_OCT_STRING 40 && (len ds <? 3) = false) by reflexivity. rewrite E, (nonempty_ne ds Hne).
+  cbn [lmode set_mode add_cur set_cur]. rewrite end_string_40.
+  replace (40 =? 92) with false by reflexivity. replace (40 =? 40) with true by reflexivity.
+  unfold SNorm, fr in *. cbn [adv add_cur set_cur set_mode set_paren lmode cur paren tpos toks]. rewrite Hc, Hp. unfold octv.
+  rewrite <- app_assoc. auto.
+Qed.
+Lemma o_close f n st acc ds : 2 <= n -> SOct f n st acc ds -> SNorm f (n - 1) (step st 41) (acc ++ [octv ds] ++ [41]).
+Proof.
+  intros Hn (Hf & Hm & Hc & Hp & Ho & Hne & Hl). crunch Hm. rewrite Ho.
+  assert (E : re_OCT_STRING 41 && (len ds <? 3) = false) by reflexivity. rewrite E, (nonempty_ne ds Hne).
+  cbn [lmode set_mode add_cur set_cur paren]. rewrite end_string_41.
+  replace (41 =? 92) with false by reflexivity. replace (41 =? 40) with false by reflexivity.
+  replace (41 =? 41) with true by reflexivity. assert (E2 : negb (paren st - 1 =? 0) = true) by lia. rewrite E2. cbn [andb].
+  unfold SNorm, fr in *. cbn [adv add_cur set_cur set_mode set_paren lmode cur paren tpos toks]. rewrite Hc, Hp. unfold octv.
+  rewrite <- app_assoc. auto.
+Qed.
+Lemma c_open f n st acc : SCR f n st acc -> SNorm f (n + 1) (step st 40) (acc ++ [40]).
+Proof.
+  intros (Hf & Hm & Hc & Hp). crunch Hm. replace (40 =? 10) with false by reflexivity.
+  cbn [lmode set_mode]. rewrite end_string_40.
+  replace (40 =? 92) with false by reflexivity. replace (40 =? 40) with true by reflexivity.
+  unfold SNorm, fr in *. cbn [adv add_cur set_cur set_mode set_paren lmode cur paren tpos toks]. rewrite Hc, Hp. auto.
+Qed.
+Lemma c_close f n st acc : 2 <= n -> SCR f n st acc -> SNorm f (n - 1) (step st 41) (acc ++ [41]).
+Proof.
+  intros Hn (Hf & Hm & Hc & Hp). crunch Hm. replace (41 =? 10) with false by reflexivity.
+  cbn [lmode set_mode paren]. rewrite end_string_41.
+  replace (41 =? 92) with false by reflexivity. replace (41 =? 40) with false by reflexivity.
+  replace (41 =? 41) with true by reflexivity. assert (E2 : negb (paren st - 1 =? 0) = true) by lia. rewrite E2. cbn [andb].
+  unfold SNorm, fr in *. cbn [adv add_cur set_cur set_mode set_paren lmode cur paren tpos toks]. rewrite Hc, Hp. auto.
+Qed.
+
 (* --- the closing parenthesis: the string token is emitted with everything accumulated *)
 Definition emitted (f : Z * list (Z * token)) (st' : lst) (v : list Z) : Prop :=
   lmode st' = MMain /\ toks st' = (fst f, TStr v) :: snd f.
-Lemma close_norm f st acc : SNorm f st acc -> emitted f (step st 41) acc.
+Lemma close_norm f st acc : SNorm f 1 st acc -> emitted f (step st 41) acc.
 Proof.
   intros (Hf & Hm & Hc & Hp). crunch Hm. cbn [re_END_STRING]. cbn. rewrite Hp. cbn.
   unfold emitted, fr in *. subst f. cbn [fst snd]. cbn [adv set_mode emit set_paren lmode toks cur tpos]. rewrite Hc. auto.
 Qed.
-Lemma close_oct f st acc ds : SOct f st acc ds -> emitted f (step st 41) (acc ++ [octv ds]).
+Lemma close_oct f st acc ds : SOct f 1 st acc ds -> emitted f (step st 41) (acc ++ [octv ds]).
 Proof.
   intros (Hf & Hm & Hc & Hp & Ho & Hne & Hl). crunch Hm. rewrite Ho.
   assert (E : re_OCT_STRING 41 && (len ds <? 3) = false) by reflexivity. rewrite E, (nonempty_ne ds Hne).
   cbn [lmode set_mode add_cur set_cur]. cbn. rewrite Hp. cbn.
   unfold emitted, fr in *. subst f. cbn [fst snd]. cbn [adv set_mode emit set_paren add_cur set_cur lmode toks cur tpos]. rewrite Hc. unfold octv. auto.
 Qed.
-Lemma close_cr f st acc : SCR f st acc -> emitted f (step st 41) acc.
+Lemma close_cr f st acc : SCR f 1 st acc -> emitted f (step st 41) acc.
 Proof.
   intros (Hf & Hm & Hc & Hp). crunch Hm. cbn. rewrite Hp. cbn.
   unfold emitted, fr in *. subst f. cbn [fst snd]. cbn [adv set_mode emit set_paren lmode toks cur tpos]. rewrite Hc. auto.
@@ -147,15 +198,18 @@ Inductive piece :=
 | PEsc (c v : Z)                   (* \n \r \t \b \f \( \) \\ *)
 | POct (ds : list Z)               (* \d, \dd, \ddd *)
 | PCont (eol : list Z)             (* backslash + end of line: denotes nothing *)
-| PIgn (c : Z).                    (* backslash before a byte that starts no escape: the byte itself *)
+| PIgn (c : Z)                     (* backslash before a byte that starts no escape: the byte itself *)
+| POpen | PClose.                  (* unescaped parentheses, allowed when balanced: they denote themselves *)
 
 Definition render (p : piece) : list Z :=
   match p with
   | PRaw c => [c] | PEsc c _ => [92; c] | POct ds => 92 :: ds | PCont eol => 92 :: eol | PIgn c => [92; c]
+  | POpen => [40] | PClose => [41]
   end.
 Definition pvalue (p : piece) : list Z :=
   match p with
   | PRaw c => [c] | PEsc _ v => [v] | POct ds => [octv ds] | PCont _ => [] | PIgn c => [c]
+  | POpen => [40] | PClose => [41]
   end.
 Definition wf_piece (p : piece) : Prop :=
   match p with
@@ -164,17 +218,20 @@ Definition wf_piece (p : piece) : Prop :=
   | POct ds => ds <> [] /\ (length ds <= 3)%nat /\ forallb re_OCT_STRING ds = true
   | PCont eol => eol = [10] \/ eol = [13] \/ eol = [13; 10]
   | PIgn c => plain c /\ re_OCT_STRING c = false /\ lookup c ESC_STRING = None /\ c <> 13 /\ c <> 10
+  | POpen | PClose => True
   end.
 
 (* what is still pending when a piece has been read *)
 Inductive pend := ANone | AOct (ds : list Z) | ACR.
-Definition Inv (f : Z * list (Z * token)) (st : lst) (a : pend) (acc : list Z) : Prop :=
-  match a with ANone => SNorm f st acc | AOct ds => SOct f st acc ds | ACR => SCR f st acc end.
+Definition Inv (f : Z * list (Z * token)) (n : Z) (st : lst) (a : pend) (acc : list Z) : Prop :=
+  match a with ANone => SNorm f n st acc | AOct ds => SOct f n st acc ds | ACR => SCR f n st acc end.
 Definition flushv (a : pend) : list Z := match a with AOct ds => [octv ds] | _ => [] end.
 
 (* the two ambiguities a writer must avoid: a short octal escape followed by a raw digit, backslash-CR followed by a
    raw LF *)
-Definition first_byte (p : piece) : Z := match p with PRaw c => c | _ => 92 end.
+Definition first_byte (p : piece) : Z := match p with PRaw c => c | POpen => 40 | PClose => 41 | _ => 92 end.
+(* nesting depth after a piece *)
+Definition dstep (n : Z) (p : piece) : Z := match p with POpen => n + 1 | PClose => n - 1 | _ => n end.
 Definition compatible (a : pend) (p : piece) : Prop :=
   match a with
   | AOct ds => (3 <= length ds)%nat \/ re_OCT_STRING (first_byte p) = false
@@ -182,8 +239,8 @@ Definition compatible (a : pend) (p : piece) : Prop :=
   | ANone => True
   end.
 
-Lemma oct_run f acc : forall ds st pre, SOct f st acc pre -> (length pre + length ds <= 3)%nat ->
-  forallb re_OCT_STRING ds = true -> SOct f (run st ds) acc (pre ++ ds).
+Lemma oct_run f n acc : forall ds st pre, SOct f n st acc pre -> (length pre + length ds <= 3)%nat ->
+  forallb re_OCT_STRING ds = true -> SOct f n (run st ds) acc (pre ++ ds).
 Proof.
   induction ds as [|d ds IH]; intros st pre H Hl Hf; [rewrite app_nil_r; exact H|].
   cbn [forallb] in Hf. apply andb_true_iff in Hf. destruct Hf as [Hd Hf]. cbn [length] in Hl.
@@ -191,30 +248,29 @@ Proof.
   apply IH; [apply o_more; [exact H|lia|exact Hd]|rewrite app_length; cbn [length]; lia|exact Hf].
 Qed.
 
-Fixpoint seq_ok (a : pend) (ps : list piece) : Prop :=
+Definition pafter (p : piece) : pend := match p with POct ds => AOct ds | PCont [13] => ACR | _ => ANone end.
+(* admissible piece sequences from pending state a at depth n: every piece well formed and compatible with what is
+   pending, a closing parenthesis only inside an open one, and all parentheses closed at the end *)
+Fixpoint seq_okd (a : pend) (n : Z) (ps : list piece) : Prop :=
   match ps with
-  | [] => True
-  | p :: r => wf_piece p /\ compatible a p /\
-              seq_ok (match p with
-                      | POct ds => AOct ds
-                      | PCont [13] => ACR
-                      | _ => ANone
-                      end) r
+  | [] => n = 1
+  | p :: r => wf_piece p /\ compatible a p /\ (p = PClose -> 2 <= n) /\ seq_okd (pafter p) (dstep n p) r
   end.
+Definition seq_ok (a : pend) (ps : list piece) : Prop := seq_okd a 1 ps.
 
 (* the pending state after a piece is determined by the piece *)
-Lemma pend_after f st a acc p : Inv f st a acc -> wf_piece p -> compatible a p ->
-  exists acc', Inv f (run st (render p)) (match p with POct ds => AOct ds | PCont [13] => ACR | _ => ANone end) acc' /\
-               acc' ++ flushv (match p with POct ds => AOct ds | PCont [13] => ACR | _ => ANone end) = (acc ++ flushv a) ++ pvalue p.
+Lemma pend_after f n st a acc p : Inv f n st a acc -> wf_piece p -> compatible a p -> (p = PClose -> 2 <= n) ->
+  exists acc', Inv f (dstep n p) (run st (render p)) (pafter p) acc' /\
+               acc' ++ flushv (pafter p) = (acc ++ flushv a) ++ pvalue p.
 Proof.
-  intros HI Hwf Hco.
+  intros HI Hwf Hco Hcl. unfold pafter.
   destruct (Z.eq_dec (first_byte p) 92) as [Hb|Hb].
   - assert (Hr : render p = 92 :: tl (render p)) by (destruct p; cbn in *; try reflexivity; congruence).
-    assert (HE : SEsc f (step st 92) (acc ++ flushv a)).
+    assert (HE : SEsc f n (step st 92) (acc ++ flushv a)).
     { destruct a as [|ds|]; cbn [Inv flushv] in *; [rewrite app_nil_r; apply n_backslash; exact HI
                                                     |apply o_backslash; exact HI|rewrite app_nil_r; apply c_backslash; exact HI]. }
     rewrite Hr, run_cons.
-    destruct p as [c|c v|ds|eol|c]; cbn [render tl pvalue wf_piece first_byte] in *.
+    destruct p as [c|c v|ds|eol|c| |]; cbn [render tl pvalue wf_piece first_byte dstep] in *; try (cbn in Hb; lia).
     + destruct Hwf as [[_ [_ H]] _]. congruence.
     + eexists. split; [rewrite run_cons; cbn [run fold_left]; apply e_table; eassumption|cbn [flushv]; rewrite !app_nil_r; reflexivity].
     + destruct Hwf as (Hne & Hl & Hf). destruct ds as [|d ds]; [congruence|].
@@ -226,34 +282,46 @@ Proof.
       * eexists. split; [rewrite !run_cons; apply c_lf; apply e_cr; exact HE|cbn [flushv]; rewrite !app_nil_r; reflexivity].
     + destruct Hwf as (Hpl & Ho & Hl & H13 & H10).
       eexists. split; [rewrite run_cons; apply e_other; eassumption|cbn [flushv]; rewrite !app_nil_r; reflexivity].
-  - destruct p as [c|c v|ds|eol|c]; cbn [first_byte] in Hb; try congruence.
-    cbn [render pvalue wf_piece first_byte] in *. destruct Hwf as [Hpl H13].
-    eexists. split; [|cbn [flushv]; rewrite app_nil_r; reflexivity]. cbn [run fold_left Inv].
-    destruct a as [|ds|]; cbn [Inv flushv compatible first_byte] in *.
-    + rewrite app_nil_r. apply n_plain; assumption.
-    + rewrite <- app_assoc. apply o_plain; assumption.
-    + rewrite app_nil_r. apply c_plain; assumption.
+  - destruct p as [c|c v|ds|eol|c| |]; cbn [first_byte] in Hb; try congruence;
+      cbn [render pvalue wf_piece first_byte dstep] in *.
+    + destruct Hwf as [Hpl H13].
+      eexists. split; [|cbn [flushv]; rewrite app_nil_r; reflexivity]. cbn [run fold_left Inv].
+      destruct a as [|ds|]; cbn [Inv flushv compatible first_byte] in *.
+      * rewrite app_nil_r. apply n_plain; assumption.
+      * rewrite <- app_assoc. apply o_plain; assumption.
+      * rewrite app_nil_r. apply c_plain; assumption.
+    + eexists. split; [|cbn [flushv]; rewrite app_nil_r; reflexivity]. cbn [run fold_left Inv].
+      destruct a as [|ds|]; cbn [Inv flushv] in *.
+      * rewrite app_nil_r. apply n_open; assumption.
+      * rewrite <- app_assoc. apply o_open; assumption.
+      * rewrite app_nil_r. apply c_open; assumption.
+    + specialize (Hcl eq_refl).
+      eexists. split; [|cbn [flushv]; rewrite app_nil_r; reflexivity]. cbn [run fold_left Inv].
+      destruct a as [|ds|]; cbn [Inv flushv] in *.
+      * rewrite app_nil_r. apply n_close; assumption.
+      * rewrite <- app_assoc. apply o_close; assumption.
+      * rewrite app_nil_r. apply c_close; assumption.
 Qed.
 
-Lemma pieces_run f : forall ps st a acc, Inv f st a acc -> seq_ok a ps ->
-  exists a' acc', Inv f (run st (flat_map render ps)) a' acc' /\ acc' ++ flushv a' = (acc ++ flushv a) ++ flat_map pvalue ps.
+Lemma pieces_run f : forall ps n st a acc, Inv f n st a acc -> seq_okd a n ps ->
+  exists a' acc', Inv f 1 (run st (flat_map render ps)) a' acc' /\ acc' ++ flushv a' = (acc ++ flushv a) ++ flat_map pvalue ps.
 Proof.
-  induction ps as [|p ps IH]; intros st a acc HI Hok.
-  - exists a, acc. split; [exact HI|rewrite app_nil_r; reflexivity].
-  - cbn [seq_ok] in Hok. destruct Hok as (Hwf & Hco & Hrest).
-    destruct (pend_after f st a acc p HI Hwf Hco) as (acc1 & HI1 & Hv1).
+  induction ps as [|p ps IH]; intros n st a acc HI Hok.
+  - cbn [seq_okd] in Hok. subst n. exists a, acc. split; [exact HI|rewrite app_nil_r; reflexivity].
+  - cbn [seq_okd] in Hok. destruct Hok as (Hwf & Hco & Hcl & Hrest).
+    destruct (pend_after f n st a acc p HI Hwf Hco Hcl) as (acc1 & HI1 & Hv1).
     cbn [flat_map]. rewrite run_app.
-    destruct (IH _ _ _ HI1 Hrest) as (a' & acc' & HI' & Hv').
+    destruct (IH _ _ _ _ HI1 Hrest) as (a' & acc' & HI' & Hv').
     exists a', acc'. split; [exact HI'|]. rewrite Hv', Hv1, <- app_assoc. reflexivity.
 Qed.
 
-(* THE THEOREM: any sequence of admissible spellings of the bytes of a string, written between parentheses, is read
-   back as exactly the string: nothing is emitted before the closing parenthesis, and the token emitted there carries
-   the concatenated values at the position of the opening parenthesis *)
-Theorem literal_string_spelling f st ps : SNorm f st [] -> seq_ok ANone ps ->
+(* THE THEOREM: any sequence of admissible spellings of the bytes of a string (balanced unescaped parentheses included),
+   written between parentheses, is read back as exactly the string: nothing is emitted before the closing parenthesis,
+   and the token emitted there carries the concatenated values at the position of the opening parenthesis *)
+Theorem literal_string_spelling f st ps : SNorm f 1 st [] -> seq_ok ANone ps ->
   emitted f (run st (flat_map render ps ++ [41])) (flat_map pvalue ps).
 Proof.
-  intros HS Hok. destruct (pieces_run f ps st ANone [] HS Hok) as (a' & acc' & HI & Hv).
+  intros HS Hok. destruct (pieces_run f ps 1 st ANone [] HS Hok) as (a' & acc' & HI & Hv).
   cbn [flushv app] in Hv. rewrite <- Hv. rewrite run_app. cbn [run fold_left].
   destruct a' as [|ds|]; cbn [Inv flushv] in *.
   - rewrite app_nil_r. apply close_norm. exact HI.
@@ -262,7 +330,7 @@ Proof.
 Qed.
 
 (* entering the string: "(" from the main state records the token position *)
-Lemma open_paren st : lmode st = MMain -> SNorm (apos st, toks st) (step st 40) [].
+Lemma open_paren st : lmode st = MMain -> SNorm (apos st, toks st) 1 (step st 40) [].
 Proof.
   intros Hm. unfold step, step_core. rewrite Hm. unfold step_main, main_dispatch. cbn.
   unfold SNorm, fr. cbn. auto.
@@ -305,12 +373,14 @@ Lemma seq_ok_oct3 : forall v a, Forall (fun b => 0 <= b < 256) v ->
   (match a with AOct ds => (3 <= length ds)%nat | ACR => True | ANone => True end) ->
   seq_ok a (map (fun b => POct (oct3 b)) v) /\ flat_map pvalue (map (fun b => POct (oct3 b)) v) = v.
 Proof.
-  induction v as [|b v IH]; intros a Hv Ha; [split; [exact I|reflexivity]|].
+  unfold seq_ok.
+  induction v as [|b v IH]; intros a Hv Ha; [split; reflexivity|].
   inversion Hv as [|? ? Hb Hv']; subst. destruct (oct3_ok b Hb) as [Ho Hf].
   destruct (IH (AOct (oct3 b)) Hv') as [Hs Hval]; [cbn; lia|].
-  cbn [map seq_ok flat_map pvalue]. split.
+  cbn [map seq_okd flat_map pvalue pafter dstep]. split.
   - split; [cbn [wf_piece]; split; [discriminate|split; [cbn; lia|exact Hf]]|].
-    split; [destruct a; cbn [compatible first_byte]; [exact I|left; exact Ha|discriminate]|exact Hs].
+    split; [destruct a; cbn [compatible first_byte]; [exact I|left; exact Ha|discriminate]|].
+    split; [discriminate|exact Hs].
   - rewrite Hval, Ho. reflexivity.
 Qed.
 Theorem every_string_has_a_spelling v : Forall (fun b => 0 <= b < 256) v ->
@@ -320,6 +390,6 @@ Proof. intros Hv. exists (map (fun b => POct (oct3 b)) v). apply seq_ok_oct3; [e
 (* non-vacuity: one spelling using every kind of piece, and the ambiguities the side condition rules out *)
 Example spelling_example :
   let ps := [PRaw 65; PEsc 110 10; POct [48; 49]; PRaw 57; POct [49; 50; 51]; PRaw 52; PCont [13]; PRaw 66; PCont [13; 10];
-             PIgn 113; PEsc 40 40; POct [55]; PCont [10]] in
-  seq_ok ANone ps /\ flat_map pvalue ps = [65; 10; 1; 57; 83; 52; 66; 113; 40; 7].
-Proof. cbn. repeat split; auto; try lia; try discriminate. Qed.
+             PIgn 113; PEsc 40 40; POct [55]; PCont [10]; POpen; PRaw 66; POpen; PClose; POct [55]; PClose] in
+  seq_ok ANone ps /\ flat_map pvalue ps = [65; 10; 1; 57; 83; 52; 66; 113; 40; 7; 40; 66; 40; 41; 7; 41].
+Proof. unfold seq_ok. cbn. repeat split; auto; try lia; try discriminate. Qed.
